@@ -1,3 +1,668 @@
 package main
 
-func genPipeline() {}
+import (
+	"fmt"
+	"go/ast"
+	"go/token"
+	"sort"
+	"strings"
+)
+
+func init() { generators = append(generators, genPipeline) }
+
+// genPipeline reads the API functions of expr.go and the stage functions they call and writes
+// coq/gen/GenPipeline.v (property C04, also used by C02):
+//
+//	(a) gen_compile_calls / gen_eval_calls / gen_run_calls: the stage calls inside expr.Compile,
+//	    expr.Eval, expr.Run in source order, each as (callee, context, error handling):
+//	      callee   package-qualified function, or Type.Method for a call on a local variable whose
+//	               type is visible (`config := &conf.Config{..}` -> conf.Config.Check), or the name of
+//	               a function-typed loop variable (`op(config)` -> "op");
+//	      context  the enclosing `range X` / `if C` headers, outermost first, joined by "; ";
+//	      error    the condition of the `if .. { .. return .. }` that follows the call (or of the
+//	               `if` whose init statement is the call) when that block ends in a return: the
+//	               condition under which the stage's failure leaves the function; "" when the call
+//	               has no such test; "delegate" for `return f(..)`.
+//	    A call through a helper declared in expr.go itself is followed into the helper (its calls
+//	    get the context "in <helper>[ recover]").
+//	(b) gen_recover: for every function of the pipeline whether its body installs
+//	    `defer func() { .. recover() .. }()` as a top-level statement, with the position of the
+//	    defer among the statements and what the handler assigns / calls.
+//	(c) gen_returns: every return statement of Compile / Eval / Run / vm.Run classified as
+//	    ok (error result is the literal nil), err (anything else) or delegate, with the text of the
+//	    result that accompanies it; named results of compiler.Compile and (*VM).Run: whether the
+//	    result variable is assigned only by the last statement before the final return.
+//	(d) gen_optimize_passes: the passes of optimizer.Optimize with their loop bounds.
+//
+// Shapes that are not recognised are listed in pipeline_unrecognised (the bridge lemma of C04
+// demands the empty list).
+type pipeCall struct{ callee, ctx, errc string }
+
+var pipeIgnorePkgs = map[string]bool{"fmt": true, "reflect": true, "errors": true, "strings": true, "math": true, "sort": true}
+var pipeBuiltins = map[string]bool{"len": true, "make": true, "append": true, "cap": true, "panic": true, "recover": true, "new": true, "copy": true, "delete": true}
+
+func squeeze(s string) string { return strings.Join(strings.Fields(s), " ") }
+
+type pipeScan struct {
+	pkg     string            // package name of the file being scanned
+	file    *ast.File         // for helpers declared in the same file
+	locals  map[string]string // local variable -> Type (pkg-qualified)
+	calls   []pipeCall
+	returns [][3]string // (class, accompanying result text, error result text)
+	unrec   *[]string
+	depth   int
+}
+
+func (p *pipeScan) bad(n ast.Node, format string, a ...interface{}) {
+	*p.unrec = append(*p.unrec, pos(n)+": "+fmt.Sprintf(format, a...))
+}
+
+// typeName: &pkg.T{..} / pkg.T{..} / T{..}
+func (p *pipeScan) typeName(e ast.Expr) string {
+	switch v := e.(type) {
+	case *ast.UnaryExpr:
+		if v.Op == token.AND {
+			return p.typeName(v.X)
+		}
+	case *ast.CompositeLit:
+		switch t := v.Type.(type) {
+		case *ast.SelectorExpr:
+			return src(t)
+		case *ast.Ident:
+			return p.pkg + "." + t.Name
+		}
+	}
+	return ""
+}
+
+func (p *pipeScan) calleeName(c *ast.CallExpr) (string, bool) {
+	switch f := c.Fun.(type) {
+	case *ast.SelectorExpr:
+		x, ok := f.X.(*ast.Ident)
+		if !ok {
+			return squeeze(src(c.Fun)), true
+		}
+		if pipeIgnorePkgs[x.Name] {
+			return "", false
+		}
+		if t, ok := p.locals[x.Name]; ok && t != "" {
+			return t + "." + f.Sel.Name, true
+		}
+		return x.Name + "." + f.Sel.Name, true
+	case *ast.Ident:
+		if pipeBuiltins[f.Name] {
+			return "", false
+		}
+		if f.Obj != nil && f.Obj.Kind == ast.Typ {
+			return "", false
+		}
+		return f.Name, true
+	}
+	return "", false
+}
+
+// findCalls: the stage calls directly inside an expression (not inside function literals), outermost last
+func (p *pipeScan) findCalls(e ast.Node) []*ast.CallExpr {
+	var out []*ast.CallExpr
+	ast.Inspect(e, func(n ast.Node) bool {
+		switch v := n.(type) {
+		case *ast.FuncLit:
+			return false
+		case *ast.CallExpr:
+			if _, ok := p.calleeName(v); ok {
+				out = append(out, v)
+			}
+		}
+		return true
+	})
+	return out
+}
+
+func mentionsErr(e ast.Expr) bool {
+	found := false
+	ast.Inspect(e, func(n ast.Node) bool {
+		if id, ok := n.(*ast.Ident); ok && id.Name == "err" {
+			found = true
+		}
+		return true
+	})
+	return found
+}
+
+func endsInReturn(b *ast.BlockStmt) bool {
+	if b == nil || len(b.List) == 0 {
+		return false
+	}
+	_, ok := b.List[len(b.List)-1].(*ast.ReturnStmt)
+	return ok
+}
+
+func (p *pipeScan) record(c *ast.CallExpr, ctx []string, errc string) {
+	name, _ := p.calleeName(c)
+	// a helper declared in the same file: follow it
+	if id, ok := c.Fun.(*ast.Ident); ok && p.depth == 0 {
+		if fd := funcDecl(p.file, id.Name, ""); fd != nil && fd.Body != nil {
+			tag := "in " + id.Name
+			if has, _, _ := hasRecover(fd); has {
+				tag += " recover"
+			}
+			sub := &pipeScan{pkg: p.pkg, file: p.file, locals: map[string]string{}, unrec: p.unrec, depth: 1}
+			sub.block(fd.Body.List, append(append([]string{}, ctx...), tag))
+			for _, sc := range sub.calls {
+				if sc.errc == "" {
+					sc.errc = errc
+				}
+				p.calls = append(p.calls, sc)
+			}
+			return
+		}
+	}
+	p.calls = append(p.calls, pipeCall{name, strings.Join(ctx, "; "), errc})
+}
+
+func (p *pipeScan) block(stmts []ast.Stmt, ctx []string) {
+	for i, st := range stmts {
+		// error test that follows this statement
+		follow := ""
+		if i+1 < len(stmts) {
+			if is, ok := stmts[i+1].(*ast.IfStmt); ok && is.Init == nil && mentionsErr(is.Cond) {
+				if endsInReturn(is.Body) {
+					follow = squeeze(src(is.Cond))
+				} else {
+					follow = "?"
+				}
+			}
+		}
+		switch s := st.(type) {
+		case *ast.AssignStmt:
+			if s.Tok == token.DEFINE && len(s.Lhs) == 1 && len(s.Rhs) == 1 {
+				if id, ok := s.Lhs[0].(*ast.Ident); ok {
+					if t := p.typeName(s.Rhs[0]); t != "" {
+						p.locals[id.Name] = t
+					}
+				}
+			}
+			for _, r := range s.Rhs {
+				for _, c := range p.findCalls(r) {
+					p.record(c, ctx, follow)
+				}
+			}
+		case *ast.ExprStmt:
+			for _, c := range p.findCalls(s.X) {
+				p.record(c, ctx, follow)
+			}
+		case *ast.DeclStmt, *ast.DeferStmt, *ast.EmptyStmt:
+			// no stage calls
+		case *ast.RangeStmt:
+			p.block(s.Body.List, append(append([]string{}, ctx...), "range "+squeeze(src(s.X))))
+		case *ast.ForStmt:
+			hdr := "for"
+			if s.Cond != nil {
+				hdr += " " + squeeze(src(s.Cond))
+			}
+			p.block(s.Body.List, append(append([]string{}, ctx...), hdr))
+		case *ast.IfStmt:
+			cond := squeeze(src(s.Cond))
+			if s.Init != nil {
+				errc := ""
+				if mentionsErr(s.Cond) {
+					if endsInReturn(s.Body) {
+						errc = cond
+					} else {
+						errc = "?"
+					}
+				}
+				for _, c := range p.findCalls(s.Init) {
+					p.record(c, ctx, errc)
+				}
+			}
+			for _, c := range p.findCalls(s.Cond) {
+				p.record(c, ctx, "")
+			}
+			p.block(s.Body.List, append(append([]string{}, ctx...), "if "+cond))
+			switch e := s.Else.(type) {
+			case *ast.BlockStmt:
+				p.block(e.List, append(append([]string{}, ctx...), "else "+cond))
+			case *ast.IfStmt:
+				p.block([]ast.Stmt{e}, append(append([]string{}, ctx...), "else "+cond))
+			}
+		case *ast.ReturnStmt:
+			switch len(s.Results) {
+			case 0:
+				p.returns = append(p.returns, [3]string{"bare", "", ""})
+			case 1:
+				if c, ok := s.Results[0].(*ast.CallExpr); ok {
+					name, _ := p.calleeName(c)
+					p.calls = append(p.calls, pipeCall{name, strings.Join(ctx, "; "), "delegate"})
+					p.returns = append(p.returns, [3]string{"delegate", name, ""})
+				} else {
+					p.bad(s, "return with one result that is not a call")
+				}
+			case 2:
+				a, e := squeeze(src(s.Results[0])), squeeze(src(s.Results[1]))
+				if e == "nil" {
+					p.returns = append(p.returns, [3]string{"ok", a, e})
+				} else {
+					p.returns = append(p.returns, [3]string{"err", a, e})
+				}
+			default:
+				p.bad(s, "return with %d results", len(s.Results))
+			}
+		case *ast.BlockStmt:
+			p.block(s.List, ctx)
+		case *ast.SwitchStmt, *ast.TypeSwitchStmt, *ast.SelectStmt, *ast.GoStmt, *ast.LabeledStmt, *ast.BranchStmt, *ast.IncDecStmt, *ast.SendStmt:
+			p.bad(st, "statement kind not expected in an API function: %T", st)
+		default:
+			p.bad(st, "statement kind %T", st)
+		}
+	}
+}
+
+// hasRecover: a top-level `defer func() { .. recover() .. }()`; returns its index among the
+// statements and what the handler does with the recovered value.
+func hasRecover(fd *ast.FuncDecl) (bool, int, string) {
+	if fd == nil || fd.Body == nil {
+		return false, 0, ""
+	}
+	for i, st := range fd.Body.List {
+		ds, ok := st.(*ast.DeferStmt)
+		if !ok {
+			continue
+		}
+		fl, ok := ds.Call.Fun.(*ast.FuncLit)
+		if !ok {
+			continue
+		}
+		found := false
+		var acts []string
+		ast.Inspect(fl.Body, func(n ast.Node) bool {
+			switch v := n.(type) {
+			case *ast.CallExpr:
+				if id, ok := v.Fun.(*ast.Ident); ok && id.Name == "recover" {
+					found = true
+				}
+				if id, ok := v.Fun.(*ast.Ident); ok && id.Name == "panic" {
+					acts = append(acts, "panic()")
+				}
+				if se, ok := v.Fun.(*ast.SelectorExpr); ok {
+					if x, ok := se.X.(*ast.Ident); ok && !pipeIgnorePkgs[x.Name] && x.Name != "f" {
+						acts = append(acts, x.Name+"."+se.Sel.Name+"()")
+					}
+				}
+			case *ast.AssignStmt:
+				if v.Tok == token.ASSIGN {
+					for _, l := range v.Lhs {
+						acts = append(acts, squeeze(src(l)))
+					}
+				}
+			}
+			return true
+		})
+		if found {
+			sort.Strings(acts)
+			return true, i, strings.Join(acts, ",")
+		}
+	}
+	return false, 0, ""
+}
+
+// namedResultAssignedLast: the function has named results; `name` is assigned by exactly one
+// top-level statement, which is followed only by a bare return.
+func namedResultAssignedLast(fd *ast.FuncDecl, name string) string {
+	if fd == nil || fd.Body == nil || fd.Type.Results == nil {
+		return "missing"
+	}
+	named := false
+	for _, fl := range fd.Type.Results.List {
+		for _, n := range fl.Names {
+			if n.Name == name {
+				named = true
+			}
+		}
+	}
+	if !named {
+		return "not-named"
+	}
+	idx := -1
+	count := 0
+	for i, st := range fd.Body.List {
+		ast.Inspect(st, func(n ast.Node) bool {
+			if _, ok := n.(*ast.FuncLit); ok {
+				return false
+			}
+			if as, ok := n.(*ast.AssignStmt); ok {
+				for _, l := range as.Lhs {
+					if id, ok := l.(*ast.Ident); ok && id.Name == name {
+						count++
+						idx = i
+					}
+				}
+			}
+			return true
+		})
+	}
+	if count == 0 {
+		return "never-assigned"
+	}
+	if count > 1 {
+		return "assigned-several-times"
+	}
+	for _, st := range fd.Body.List[idx+1:] {
+		rs, ok := st.(*ast.ReturnStmt)
+		if !ok || len(rs.Results) != 0 {
+			return "code-after-assignment"
+		}
+	}
+	if idx+1 >= len(fd.Body.List) {
+		return "no-return-after-assignment"
+	}
+	return "assigned-last"
+}
+
+func coqTriples(name string, cs []pipeCall) string {
+	var b strings.Builder
+	fmt.Fprintf(&b, "Definition %s : list (string * string * string) := [", name)
+	for i, c := range cs {
+		if i > 0 {
+			b.WriteString(";")
+		}
+		fmt.Fprintf(&b, "\n  (%s, %s, %s)", coqString(c.callee), coqString(c.ctx), coqString(c.errc))
+	}
+	b.WriteString("].\n\n")
+	return b.String()
+}
+
+func genPipeline() {
+	var unrec []string
+	var b strings.Builder
+	b.WriteString("(* GENERATED by /verif/translator from expr.go, conf/config.go, conf/types_table.go, parser/parser.go,\n   parser/lexer/lexer.go, checker/checker.go, compiler/patcher.go, compiler/compiler.go, ast/visitor.go,\n   optimizer/*.go, vm/vm.go — do not edit *)\n")
+	b.WriteString("From Coq Require Import List String Bool.\nImport ListNotations.\nOpen Scope string_scope.\n\n")
+
+	ef := parseFile("expr.go")
+	scanAPI := func(f *ast.File, pkg, fn, recv string) *pipeScan {
+		p := &pipeScan{pkg: pkg, file: f, locals: map[string]string{}, unrec: &unrec}
+		fd := funcDecl(f, fn, recv)
+		if fd == nil || fd.Body == nil {
+			unrec = append(unrec, pkg+"."+fn+" missing")
+			return p
+		}
+		p.block(fd.Body.List, nil)
+		for _, c := range p.calls {
+			if c.errc == "?" {
+				unrec = append(unrec, pkg+"."+fn+": error test after "+c.callee+" does not end in a return")
+			}
+		}
+		return p
+	}
+
+	// ---------------------------------------------------------------- (a) stage calls
+	b.WriteString("(* (a) stage calls in source order: (callee, enclosing range/if headers, condition of the error return) *)\n")
+	pc := scanAPI(ef, "expr", "Compile", "")
+	pe := scanAPI(ef, "expr", "Eval", "")
+	pr := scanAPI(ef, "expr", "Run", "")
+	vf := parseFile("vm/vm.go")
+	pv := scanAPI(vf, "vm", "Run", "")
+	b.WriteString(coqTriples("gen_compile_calls", pc.calls))
+	b.WriteString(coqTriples("gen_eval_calls", pe.calls))
+	b.WriteString(coqTriples("gen_run_calls", pr.calls))
+	b.WriteString(coqTriples("gen_vmrun_calls", pv.calls))
+
+	// calls made by the option constructors (closures returned by exported functions of expr.go)
+	type optCall struct{ opt, callee string }
+	var ocs []optCall
+	if ef != nil {
+		for _, d := range ef.Decls {
+			fd, ok := d.(*ast.FuncDecl)
+			if !ok || fd.Recv != nil || fd.Body == nil || fd.Type.Results == nil || len(fd.Type.Results.List) != 1 {
+				continue
+			}
+			if squeeze(src(fd.Type.Results.List[0].Type)) != "Option" {
+				continue
+			}
+			seen := map[string]bool{}
+			ast.Inspect(fd.Body, func(n ast.Node) bool {
+				c, ok := n.(*ast.CallExpr)
+				if !ok {
+					return true
+				}
+				se, ok := c.Fun.(*ast.SelectorExpr)
+				if !ok {
+					return true
+				}
+				x, ok := se.X.(*ast.Ident)
+				if !ok || pipeIgnorePkgs[x.Name] {
+					return true
+				}
+				name := x.Name + "." + se.Sel.Name
+				if x.Name == "c" {
+					name = "conf.Config." + se.Sel.Name
+				}
+				if !seen[name] {
+					seen[name] = true
+					ocs = append(ocs, optCall{fd.Name.Name, name})
+				}
+				return true
+			})
+			if len(seen) == 0 {
+				ocs = append(ocs, optCall{fd.Name.Name, ""})
+			}
+		}
+	}
+	sort.Slice(ocs, func(i, j int) bool {
+		if ocs[i].opt != ocs[j].opt {
+			return ocs[i].opt < ocs[j].opt
+		}
+		return ocs[i].callee < ocs[j].callee
+	})
+	b.WriteString("(* calls made by the closure of each option constructor (\"\" = none: the option only sets fields) *)\n")
+	b.WriteString("Definition gen_option_calls : list (string * string) := [")
+	for i, oc := range ocs {
+		if i > 0 {
+			b.WriteString(";")
+		}
+		fmt.Fprintf(&b, "\n  (%s, %s)", coqString(oc.opt), coqString(oc.callee))
+	}
+	b.WriteString("].\n\n")
+
+	// ---------------------------------------------------------------- (b) recover table
+	type fnRef struct{ key, file, fn, recv string }
+	fns := []fnRef{
+		{"expr.Compile", "expr.go", "Compile", ""}, {"expr.Eval", "expr.go", "Eval", ""}, {"expr.Run", "expr.go", "Run", ""},
+		{"conf.Config.Check", "conf/config.go", "Check", "Config"}, {"conf.Config.ConstExpr", "conf/config.go", "ConstExpr", "Config"},
+		{"conf.CreateTypesTable", "conf/types_table.go", "CreateTypesTable", ""},
+		{"parser.Parse", "parser/parser.go", "Parse", ""}, {"lexer.Lex", "parser/lexer/lexer.go", "Lex", ""},
+		{"checker.Check", "checker/checker.go", "Check", ""}, {"checker.visitor.visit", "checker/checker.go", "visit", "visitor"},
+		{"compiler.PatchOperators", "compiler/patcher.go", "PatchOperators", ""}, {"compiler.operatorPatcher.Exit", "compiler/patcher.go", "Exit", "operatorPatcher"},
+		{"ast.Walk", "ast/visitor.go", "Walk", ""}, {"ast.walker.walk", "ast/visitor.go", "walk", "walker"},
+		{"optimizer.Optimize", "optimizer/optimizer.go", "Optimize", ""},
+		{"optimizer.inArray.Exit", "optimizer/in_array.go", "Exit", "inArray"}, {"optimizer.fold.Exit", "optimizer/fold.go", "Exit", "fold"},
+		{"optimizer.constExpr.Exit", "optimizer/const_expr.go", "Exit", "constExpr"},
+		{"optimizer.inRange.Exit", "optimizer/in_range.go", "Exit", "inRange"}, {"optimizer.constRange.Exit", "optimizer/const_range.go", "Exit", "constRange"},
+		{"compiler.Compile", "compiler/compiler.go", "Compile", ""}, {"compiler.compiler.compile", "compiler/compiler.go", "compile", "compiler"},
+		{"vm.Run", "vm/vm.go", "Run", ""}, {"vm.VM.Run", "vm/vm.go", "Run", "VM"},
+	}
+	sort.Slice(fns, func(i, j int) bool { return fns[i].key < fns[j].key })
+	files := map[string]*ast.File{}
+	getFile := func(rel string) *ast.File {
+		if f, ok := files[rel]; ok {
+			return f
+		}
+		f := parseFile(rel)
+		files[rel] = f
+		return f
+	}
+	b.WriteString("(* (b) which functions install `defer func() { .. recover() .. }()` (sorted by name) *)\n")
+	b.WriteString("Definition gen_recover : list (string * bool) := [")
+	type hnd struct {
+		key, acts string
+		at        int
+	}
+	var hs []hnd
+	for i, fr := range fns {
+		fd := funcDecl(getFile(fr.file), fr.fn, fr.recv)
+		if fd == nil {
+			unrec = append(unrec, fr.key+" missing in "+fr.file)
+		}
+		has, at, acts := hasRecover(fd)
+		if i > 0 {
+			b.WriteString(";")
+		}
+		fmt.Fprintf(&b, "\n  (%s, %v)", coqString(fr.key), has)
+		if has {
+			hs = append(hs, hnd{fr.key, acts, at})
+		}
+	}
+	b.WriteString("].\n\n")
+	b.WriteString("(* for the recovering ones: index of the defer statement in the body, what the handler assigns / calls *)\n")
+	b.WriteString("Definition gen_recover_handlers : list (string * nat * string) := [")
+	for i, h := range hs {
+		if i > 0 {
+			b.WriteString(";")
+		}
+		fmt.Fprintf(&b, "\n  (%s, %d, %s)", coqString(h.key), h.at, coqString(h.acts))
+	}
+	b.WriteString("].\n\n")
+
+	// ---------------------------------------------------------------- (c) returns
+	b.WriteString("(* (c) return statements: (function, class ok/err/delegate/bare, result that accompanies the error result) *)\n")
+	b.WriteString("Definition gen_returns : list (string * string * string) := [")
+	first := true
+	for _, pp := range []struct {
+		key string
+		p   *pipeScan
+	}{{"expr.Compile", pc}, {"expr.Eval", pe}, {"expr.Run", pr}, {"vm.Run", pv}} {
+		for _, r := range pp.p.returns {
+			if !first {
+				b.WriteString(";")
+			}
+			first = false
+			fmt.Fprintf(&b, "\n  (%s, %s, %s)", coqString(pp.key), coqString(r[0]), coqString(r[1]))
+		}
+	}
+	b.WriteString("].\n\n")
+	cf := getFile("compiler/compiler.go")
+	b.WriteString("(* named results: the result variable is assigned by one statement, followed only by the final bare return *)\n")
+	fmt.Fprintf(&b, "Definition gen_named_results : list (string * string) := [\n  (\"compiler.Compile\", %s);\n  (\"vm.VM.Run\", %s)].\n\n",
+		coqString(namedResultAssignedLast(funcDecl(cf, "Compile", ""), "program")),
+		coqString(vmRunResultShape(funcDecl(vf, "Run", "VM"))))
+
+	// vm.Run refuses a nil program before the VM (whose recover handler reads program.Locations) sees it
+	nilGuard := false
+	if fd := funcDecl(vf, "Run", ""); fd != nil && fd.Body != nil && len(fd.Body.List) > 0 {
+		if is, ok := fd.Body.List[0].(*ast.IfStmt); ok && squeeze(src(is.Cond)) == "program == nil" && endsInReturn(is.Body) {
+			nilGuard = true
+		}
+	}
+	fmt.Fprintf(&b, "Definition gen_run_nil_guard : bool := %v.\n\n", nilGuard)
+
+	// ---------------------------------------------------------------- (d) optimizer passes
+	b.WriteString("(* (d) optimizer.Optimize: passes in order, (visitor type, loop bound or \"once\", guard) *)\n")
+	type pass struct{ name, loop, guard string }
+	var passes []pass
+	of := getFile("optimizer/optimizer.go")
+	if fd := funcDecl(of, "Optimize", ""); fd != nil && fd.Body != nil {
+		var scan func(stmts []ast.Stmt, loop, guard string)
+		walkPass := func(c *ast.CallExpr) string {
+			if id, ok := c.Fun.(*ast.Ident); !ok || id.Name != "Walk" || len(c.Args) != 2 {
+				return ""
+			}
+			switch a := c.Args[1].(type) {
+			case *ast.UnaryExpr:
+				if cl, ok := a.X.(*ast.CompositeLit); ok {
+					return squeeze(src(cl.Type))
+				}
+			case *ast.Ident:
+				return a.Name
+			}
+			return "?"
+		}
+		scan = func(stmts []ast.Stmt, loop, guard string) {
+			for _, st := range stmts {
+				switch s := st.(type) {
+				case *ast.ExprStmt:
+					if c, ok := s.X.(*ast.CallExpr); ok {
+						if n := walkPass(c); n != "" {
+							passes = append(passes, pass{n, loop, guard})
+						}
+					}
+				case *ast.ForStmt:
+					hdr := "?"
+					if s.Init != nil && s.Cond != nil && s.Post != nil {
+						hdr = squeeze(src(s.Init)) + "; " + squeeze(src(s.Cond)) + "; " + squeeze(src(s.Post))
+					}
+					scan(s.Body.List, hdr, guard)
+				case *ast.IfStmt:
+					if endsInReturn(s.Body) || (len(s.Body.List) == 1 && isBreak(s.Body.List[0])) {
+						continue
+					}
+					scan(s.Body.List, loop, squeeze(src(s.Cond)))
+				case *ast.AssignStmt, *ast.ReturnStmt:
+				default:
+					unrec = append(unrec, pos(st)+": statement in optimizer.Optimize")
+				}
+			}
+		}
+		scan(fd.Body.List, "once", "")
+	} else {
+		unrec = append(unrec, "optimizer.Optimize missing")
+	}
+	b.WriteString("Definition gen_optimize_passes : list (string * string * string) := [")
+	for i, p := range passes {
+		if i > 0 {
+			b.WriteString(";")
+		}
+		fmt.Fprintf(&b, "\n  (%s, %s, %s)", coqString(p.name), coqString(p.loop), coqString(p.guard))
+	}
+	b.WriteString("].\n\n")
+
+	sort.Strings(unrec)
+	b.WriteString("Definition pipeline_unrecognised : list string := [" + quoteList(unrec) + "].\n")
+	writeIfChanged("GenPipeline.v", b.String())
+}
+
+func isBreak(s ast.Stmt) bool {
+	bs, ok := s.(*ast.BranchStmt)
+	return ok && bs.Tok == token.BREAK
+}
+
+// vmRunResultShape: (*VM).Run has the named results (out, err); every return statement after the
+// dispatch loop is `return X, nil`; the deferred handler assigns only err.
+func vmRunResultShape(fd *ast.FuncDecl) string {
+	if fd == nil || fd.Body == nil || fd.Type.Results == nil {
+		return "missing"
+	}
+	var names []string
+	for _, fl := range fd.Type.Results.List {
+		for _, n := range fl.Names {
+			names = append(names, n.Name)
+		}
+	}
+	if strings.Join(names, ",") != "out,err" {
+		return "results " + strings.Join(names, ",")
+	}
+	bad := ""
+	ast.Inspect(fd.Body, func(n ast.Node) bool {
+		switch v := n.(type) {
+		case *ast.FuncLit:
+			return false
+		case *ast.ReturnStmt:
+			if len(v.Results) != 2 || squeeze(src(v.Results[1])) != "nil" {
+				bad = "return shape at " + pos(v)
+			}
+		case *ast.AssignStmt:
+			if v.Tok != token.ASSIGN {
+				break // `x, err := ..` inside a case clause declares a new local
+			}
+			for _, l := range v.Lhs {
+				if id, ok := l.(*ast.Ident); ok && (id.Name == "out" || id.Name == "err") {
+					bad = "result assigned at " + pos(v)
+				}
+			}
+		}
+		return true
+	})
+	if bad != "" {
+		return bad
+	}
+	return "returns-value-nil-only"
+}
